@@ -157,6 +157,7 @@ func TestVerifReplayValues(t *testing.T) {
 	// inbound decimal64: string and JSON forms convert to the value they denote (digits * 10^-precision), never panic
 	vrDecimalInbound()
 	vrIdentityrefInbound()
+	vrTextInbound()
 	// integer text (device XML, defaults, union members): decimal only, leading zeros do not change the value
 	{
 		k := 0
@@ -340,6 +341,68 @@ func vrIdentityrefInbound() {
 		}
 		fmt.Printf("REPLAY-CASES fn=%s n=%d\n", c.fn, n)
 	}
+}
+
+// vrTextInbound: text from a NETCONF device / an XML document to typed values
+func vrTextInbound() {
+	num := func(v uint64, neg bool) *sdcpb.Number { return &sdcpb.Number{Value: v, Negative: neg} }
+	// an int64 leaf whose range statement uses min / max: the bounds are the ends of the type
+	fnI := "utils.ConvertSdcpbNumberToInt64"
+	n := 0
+	lt := &sdcpb.SchemaLeafType{Type: "int64", TypeName: "int64", Range: []*sdcpb.SchemaMinMaxType{{Min: num(1<<63, true), Max: num(10, false)}}}
+	for _, c := range []struct {
+		v  string
+		ok bool
+	}{{"5", true}, {"-9223372036854775808", true}, {"10", true}, {"-1", true}} {
+		n++
+		tv, err := Convert(c.v, lt)
+		if (err == nil) != c.ok || (c.ok && TypedValueToString(tv) != c.v) {
+			for _, f := range []string{fnI, "utils.Convert", "utils.ConvertInt64"} {
+				fmt.Printf("REPLAY-FAIL fn=%s clause=everything_an_int64_holds_converts input=int64 leaf with range \"min..10\", value %q why=converted to %v, err %v\n", f, c.v, tv, err)
+			}
+		}
+	}
+	for _, c := range []struct {
+		m    *sdcpb.Number
+		want int64
+		ok   bool
+	}{{num(1<<63, true), math.MinInt64, true}, {num(1<<63, false), 0, false}, {num(1<<63-1, false), math.MaxInt64, true}, {num(1<<63+1, true), 0, false}, {num(0, true), 0, true}, {num(7, true), -7, true}} {
+		n++
+		got, err := ConvertSdcpbNumberToInt64(c.m)
+		if (err == nil) != c.ok || (c.ok && got != c.want) {
+			fmt.Printf("REPLAY-FAIL fn=%s clause=the_signed_number input=value=%d,negative=%v why=converted to %d, err %v\n", fnI, c.m.Value, c.m.Negative, got, err)
+		}
+	}
+	fmt.Printf("REPLAY-CASES fn=%s n=%d\n", fnI, n)
+	// the length statement counts characters
+	fnS := "utils.ConvertString"
+	k := 0
+	ls := &sdcpb.SchemaLeafType{Type: "string", TypeName: "string", Length: []*sdcpb.SchemaMinMaxType{{Min: num(3, false), Max: num(5, false)}}}
+	for _, c := range []struct {
+		v  string
+		ok bool
+	}{{"abc", true}, {"äöü", true}, {"äöüäö", true}, {"ää", false}, {"äöüäöü", false}, {"abcdef", false}, {"ab", false}} {
+		k++
+		tv, err := Convert(c.v, ls)
+		if (err == nil) != c.ok || (c.ok && tv.GetStringVal() != c.v) {
+			for _, f := range []string{fnS, "utils.Convert"} {
+				fmt.Printf("REPLAY-FAIL fn=%s clause=length_counts_characters input=string leaf with length \"3..5\", value %q why=converted to %v, err %v\n", f, c.v, tv, err)
+			}
+		}
+	}
+	fmt.Printf("REPLAY-CASES fn=%s n=%d\n", fnS, k)
+	// a leafref without a resolved target type: an error, not a crash
+	fnJ := "utils.ConvertJsonValueToTv"
+	func() {
+		defer func() {
+			if r := recover(); r != nil {
+				fmt.Printf("REPLAY-FAIL fn=%s clause=panic input=leafref without a target type, JSON value \"abc\" panic=%v\n", fnJ, r)
+			}
+		}()
+		if tv, err := ConvertJsonValueToTv("abc", &sdcpb.SchemaLeafType{Type: "leafref"}); err == nil && tv != nil && tv.Value != nil {
+			fmt.Printf("REPLAY-FAIL fn=%s clause=panic input=leafref without a target type, JSON value \"abc\" why=converted to %v\n", fnJ, tv)
+		}
+	}()
 }
 
 func vrDecimalInbound() {
